@@ -27,3 +27,6 @@ Definition of_op (s : pomd) (r : res (pomd * out)) : res pv * pomd :=
   | Raise e => (Raise e, s)
   end.
 Definition pv_of_opt (d : option V) : pv := match d with Some v => VTok v | None => VMissing end.
+
+(* the E argument of update / update_extend / |= : another OrderedMultiDict is passed as its state *)
+Definition arg_pv (q : pomd) (a : arg) : pv := match a with AOther => VOtherObj q | _ => VArg a end.
